@@ -20,6 +20,6 @@ fn second_opener_during_creation_gets_locked() {
     let names: Vec<_> = std::fs::read_dir(&dir).unwrap().map(|e| e.unwrap().file_name()).collect();
     assert_eq!(names, vec![std::ffi::OsString::from("lock")]);
     drop(lock);
-    // an abandoned creation (nobody holds the lock) is still refused as a marker-less folder
-    assert!(matches!(Database::builder(&dir).open(), Err(fjall::Error::InvalidVersion(None))));
+    // an abandoned creation (nobody holds the lock any more) is resumed since repair 34
+    assert!(Database::builder(&dir).open().is_ok());
 }
